@@ -32,3 +32,52 @@ def kf_surr_esc(f):
             return False
         return obs["py"] == ("ok", ref.quote(_strip_surr(s), **kw)) and obs["c"] == ("ok", ref.quote(s, **kw))
     return False
+
+
+def _child_model_popping_root(merged):
+    """what `/` and joinpath() compute: '..' may remove the empty segment that stands for the root"""
+    segs = merged.split("/")
+    out = []
+    for s in segs:
+        if s == "..":
+            if out:
+                out.pop()
+        elif s != ".":
+            out.append(s)
+    if segs[-1] in (".", ".."):
+        out.append("")
+    p = "/".join(out)
+    if p and p[0] != "/":
+        p = "/" + p
+    return p
+
+
+def _climbs_above_root_then_empty(merged):
+    depth = 0
+    climbed = False
+    for s in merged.split("/")[1:]:
+        if s == "..":
+            if depth == 0:
+                climbed = True
+            else:
+                depth -= 1
+        elif s == ".":
+            continue
+        else:
+            if climbed and s == "":
+                return True
+            depth += 1
+    return False
+
+
+@recogniser("KF-CHILD-ROOT", "C15")
+def kf_child_root(f):
+    """`/` and joinpath(): a '..' that climbs above the root removes the root marker, so a following empty
+    segment is swallowed (RFC 5.2.4 keeps it): URL('http://h/a') / '../..//b' -> '/b', RFC '//b'."""
+    if f["entry"] not in ("div", "div-trailing", "div-empty", "joinpath-splits", "joinpath-encoded"):
+        return False
+    if not f["clause"].startswith("raw_path is not the RFC"):
+        return False
+    base = {"div": "/x/y/", "div-trailing": "/x/", "div-empty": "/", "joinpath-splits": "/x/", "joinpath-encoded": "/x/"}[f["entry"]]
+    merged = base + "/".join(f["case"]["segs"])
+    return _climbs_above_root_then_empty(merged) and (f["observed"] == (_child_model_popping_root(merged) or "/"))
